@@ -42,6 +42,19 @@ def points(ctx):
         pts.append(("zeta", "f64", [S.f_bits("f64", s)]))
     for p in (1e-300, 1e-12, 0.0, 1.0):
         pts.append(("geometric", "u64", [S.f_bits("f64", p)]))
+    # "no parameter value makes sampling loop forever": every accepted parameter, also far outside the box of E — the extremes of the
+    # float range for every parameter of every continuous family (termination and word count only are judged here)
+    import itertools
+    ext = {"f64": [1e-300, 1e-100, 1.0, 1e100, 1e155, 1e300, 1.7e308], "f32": [1e-38, 1e-20, 1.0, 1e19, 2e19, 3e38]}
+    arity = {"normal": 2, "lognormal": 2, "exp": 1, "gamma": 2, "chisq": 1, "studentt": 1, "fisherf": 2, "beta": 2, "cauchy": 2, "pareto": 2,
+             "weibull": 2, "gumbel": 2, "frechet": 3, "skewnormal": 3, "invgauss": 2, "nig": 2, "zeta": 1, "zipf": 2, "triangular": 3, "pert": 4}
+    for fam, k in arity.items():
+        for ty in ("f64", "f32"):
+            for t in itertools.product(ext[ty], repeat=min(k, 2)):
+                vals = list(t) + [1.0] * (k - len(t))
+                if fam in ("triangular", "pert"):
+                    vals = [0.0, t[0], t[0] / 2] + ([t[1]] if fam == "pert" else [])
+                pts.append((fam, ty, [S.f_bits(ty, S.f_round(ty, v)) for v in vals]))
     return pts
 
 
